@@ -1,19 +1,12 @@
 /- Helper lemmas for C01. -/
 import Chrono.Model.Date
 import Chrono.Spec.Calendar
+import Chrono.Spec.DateSpec
 import Chrono.Proofs.PrimL
+import Chrono.Proofs.DateFin
 
 namespace Chrono.Proofs
 open Chrono Chrono.M Chrono.Spec Chrono.Extracted
-
-theorem table_y2f : YEAR_TO_FLAGS.length = 400 ∧ ∀ i < 400, YEAR_TO_FLAGS.getD i 0 = flagsOf i := by
-  decide +kernel
-theorem table_mdl : MDL_TO_OL.length = 832 ∧ ∀ i < 832, MDL_TO_OL.getD i 0 = mdlDelta i := by
-  decide +kernel
-theorem table_ol : OL_TO_MDL.length = 733 ∧ ∀ i < 733, 1 < i → OL_TO_MDL.getD i 0 = olDelta i := by
-  decide +kernel
-theorem table_yd : YEAR_DELTAS.length = 401 ∧ ∀ i < 401, YEAR_DELTAS.getD i 0 = leapsBefore i := by
-  decide +kernel
 
 theorem tables_ok' :
     YEAR_TO_FLAGS.length = 400 ∧ (∀ i < 400, YEAR_TO_FLAGS.getD i 0 = flagsOf i) ∧
@@ -66,5 +59,213 @@ theorem flagsOf_facts (y : Int) :
   simp only [Int.toNat_natCast]
   have hk7 : k < 7 := by omega
   cases isLeap y <;> (by_cases hz : k = 0 <;> simp [hz] <;> omega)
+
+
+theorem valid_bounds (y : Int) (m d : Nat) (h : validYmd y m d = true) : m ≤ 12 ∧ d ≤ 31 := by
+  unfold validYmd at h
+  simp only [Bool.and_eq_true, decide_eq_true_eq] at h
+  obtain ⟨⟨⟨h1, h2⟩, h3⟩, h4⟩ := h
+  refine ⟨h2, ?_⟩
+  have : monthLen y m ≤ 31 := by
+    unfold monthLen; split <;> (try split) <;> omega
+  omega
+
+
+theorem leap_congr (y y' : Int) (m d : Nat) (h : isLeap y = isLeap y') :
+    validYmd y m d = validYmd y' m d ∧ ordinalOf y m d = ordinalOf y' m d ∧ yearLen y = yearLen y' := by
+  refine ⟨?_, ?_, ?_⟩
+  · unfold validYmd monthLen; rw [h]
+  · unfold ordinalOf; rw [h]
+  · unfold yearLen; rw [h]
+
+theorem isLeap_repYear (y : Int) : isLeap (repYear (flagsOf y)) = isLeap y := by
+  have h := (flagsOf_facts y).2.2.1
+  have h16 := (flagsOf_facts y).1
+  unfold repYear
+  cases hl : isLeap y
+  · simp only [hl, Bool.false_eq_true, if_false] at h
+    have : flagsOf y / 8 % 2 = 1 := by omega
+    rw [if_pos this]; decide
+  · simp only [hl, if_true] at h
+    have : ¬ (flagsOf y / 8 % 2 = 1) := by omega
+    rw [if_neg this]; decide
+
+
+/-- `from_yof` accepts every word built from an existing ordinal and the year's flags -/
+theorem from_yof_ok (y : Int) (o f : Nat) (ho1 : 1 ≤ o) (ho2 : o ≤ 366) (hf : f < 16) (hf8 : f % 8 ≠ 0)
+    (h366 : o = 366 → f / 8 = 0) :
+    Date.from_yof (y * 8192 + ((o * 16 + f : Nat) : Int)) = .ok ⟨y * 8192 + ((o * 16 + f : Nat) : Int)⟩ := by
+  unfold Date.from_yof
+  have hM : MAX_OL = 732 := rfl
+  apply ite_pos'
+  rw [hM]
+  push_cast
+  omega
+
+theorem ctor_ymd' (y : Int) (m d : Nat) :
+    Date.from_ymd_opt y m d =
+      .ok (if MIN_YEAR ≤ y ∧ y ≤ MAX_YEAR ∧ validYmd y m d = true
+           then some (dateOfYo y (ordinalOf y m d)) else none) := by
+  unfold Date.from_ymd_opt
+  rw [from_year_spec]
+  obtain ⟨hf16, hf8, hfl, _⟩ := flagsOf_facts y
+  have hrep := isLeap_repYear y
+  obtain ⟨hv, ho, hyl⟩ := leap_congr (repYear (flagsOf y)) y m d hrep
+  unfold Mdf.new
+  dsimp only
+  by_cases hmd : m ≤ 12 ∧ d ≤ 31
+  · rw [if_pos hmd]
+    dsimp only
+    unfold Date.from_mdf
+    by_cases hy : y < MIN_YEAR ∨ y > MAX_YEAR
+    · rw [if_pos hy]
+      congr 1; symm; apply ite_neg'
+      intro h; omega
+    · rw [if_neg hy, mdf_oaf_fin m hmd.1 d hmd.2 _ hf16, hv, ho]
+      by_cases hval : validYmd y m d = true
+      · rw [if_pos hval]
+        dsimp only
+        have hb := ordinal_bounds_fin m hmd.1 d hmd.2 _ hf16 (by rw [hv]; exact hval)
+        rw [ho, hyl] at hb
+        have h366 : ordinalOf y m d = 366 → flagsOf y / 8 = 0 := by
+          intro h; rw [hfl]
+          unfold yearLen at hb
+          cases hl : isLeap y
+          · rw [hl] at hb; simp at hb; omega
+          · simp
+        have hyl' : yearLen y ≤ 366 := by unfold yearLen; split <;> omega
+        have := from_yof_ok y (ordinalOf y m d) (flagsOf y) hb.1 (by omega) hf16 hf8 h366
+        rw [this]
+        dsimp only
+        congr 1
+        rw [if_pos ⟨by omega, by omega, hval⟩]
+        unfold dateOfYo
+        congr 2
+        push_cast; omega
+      · rw [if_neg hval]
+        dsimp only
+        congr 1; symm; apply ite_neg'
+        intro h; exact hval h.2.2
+  · rw [if_neg hmd]
+    dsimp only
+    congr 1; symm; apply ite_neg'
+    intro h
+    have := valid_bounds y m d h.2.2
+    omega
+
+theorem yearLen_le (y : Int) : yearLen y = 365 ∨ yearLen y = 366 := by
+  unfold yearLen; split <;> simp
+
+theorem ctor_yo' (y : Int) (o : Nat) :
+    Date.from_yo_opt y o =
+      .ok (if MIN_YEAR ≤ y ∧ y ≤ MAX_YEAR ∧ 1 ≤ o ∧ o ≤ yearLen y then some (dateOfYo y o) else none) := by
+  unfold Date.from_yo_opt Date.from_ordinal_and_flags
+  rw [from_year_spec]
+  obtain ⟨hf16, hf8, hfl, _⟩ := flagsOf_facts y
+  have hD : DATE_MAX_OL = 5856 := rfl
+  have hyl := yearLen_le y
+  by_cases hy : y < MIN_YEAR ∨ y > MAX_YEAR
+  · rw [if_pos hy]; congr 1; symm; apply ite_neg'; intro h; omega
+  · rw [if_neg hy]
+    by_cases ho : o = 0 ∨ o > 366
+    · rw [if_pos ho]; congr 1; symm; apply ite_neg'; intro h; omega
+    · rw [if_neg ho, if_neg (by simp)]
+      dsimp only
+      have hleapbit : flagsOf y / 8 = (if isLeap y then 0 else 1) := hfl
+      by_cases hle : (((o * 16 + flagsOf y / 8 * 8 : Nat)) : Int) ≤ DATE_MAX_OL
+      · rw [if_pos hle]
+        have h366 : o = 366 → flagsOf y / 8 = 0 := by
+          intro h; rw [hD] at hle; push_cast at hle; omega
+        have := from_yof_ok y o (flagsOf y) (by omega) (by omega) hf16 hf8 h366
+        have e : y * 8192 + ((o * 16 : Nat) : Int) + ((flagsOf y : Nat) : Int) = y * 8192 + ((o * 16 + flagsOf y : Nat) : Int) := by
+          push_cast; omega
+        rw [show (y * 8192 + ↑o * 16 + ↑(flagsOf y) : Int) = y * 8192 + ((o * 16 + flagsOf y : Nat) : Int) by push_cast; omega, this]
+        dsimp only
+        congr 1
+        have hol : o ≤ yearLen y := by
+          unfold yearLen
+          cases hl : isLeap y
+          · simp; rw [hl] at hleapbit; simp at hleapbit; rw [hD] at hle; push_cast at hle; omega
+          · simp; omega
+        rw [if_pos ⟨by omega, by omega, by omega, hol⟩]
+        unfold dateOfYo
+        congr 2
+        push_cast; omega
+      · rw [if_neg hle]
+        congr 1; symm; apply ite_neg'
+        intro h
+        apply hle
+        rw [hD]; push_cast
+        have : o ≤ yearLen y := h.2.2.2
+        unfold yearLen at this
+        cases hl : isLeap y
+        · rw [hl] at this hleapbit; simp at this hleapbit; omega
+        · rw [hl] at this hleapbit; simp at this hleapbit; omega
+
+/-- field accessors of the packed word -/
+theorem dateOfYo_fields (y : Int) (o : Nat) (ho : o < 512) :
+    (dateOfYo y o).year = y ∧ (dateOfYo y o).ordinal = o ∧ (dateOfYo y o).flags = flagsOf y ∧
+    (dateOfYo y o).yof % 16 = flagsOf y ∧ (dateOfYo y o).ol = o * 2 + flagsOf y / 8 ∧
+    (dateOfYo y o).leap_year = isLeap y := by
+  obtain ⟨hf16, hf8, hfl, _⟩ := flagsOf_facts y
+  unfold dateOfYo Date.year Date.ordinal Date.flags Date.ol Date.leap_year
+  dsimp only
+  refine ⟨by omega, by omega, by omega, by omega, by omega, ?_⟩
+  cases hl : isLeap y
+  · rw [hl] at hfl; simp at hfl
+    have : (y * 8192 + ↑o * 16 + ↑(flagsOf y)) / 8 % 2 = 1 := by omega
+    simp [this]
+  · rw [hl] at hfl; simp at hfl
+    have : (y * 8192 + ↑o * 16 + ↑(flagsOf y)) / 8 % 2 = 0 := by omega
+    simp [this]
+
+theorem yearLen_ge (y : Int) : 365 ≤ yearLen y ∧ yearLen y ≤ 366 := by
+  rcases yearLen_le y with h | h <;> omega
+
+theorem dby_neg_helper (x : Int) : (x * 1461) / 4 = 365 * x + x / 4 := by omega
+theorem div100_4 (x : Int) : x / 100 / 4 = x / 400 := by omega
+
+/-- chrono's shift/divide day-count formula equals the closed form, for every year of the range,
+with no intermediate `i32` overflow -/
+theorem num_days_spec (d : Date) (hy1 : -262145 ≤ d.year) (hy2 : d.year ≤ 262144)
+    (ho : 0 ≤ d.ordinal ∧ d.ordinal ≤ 366) :
+    Date.num_days_from_ce d = .ok (dayNumYo d.year d.ordinal) := by
+  unfold Date.num_days_from_ce dayNumYo daysBeforeYear
+  generalize d.year = y at *
+  generalize d.ordinal = o at *
+  rw [ckI32_ok (by omega) (by omega), Res.bind_ok]
+  by_cases hneg : y - 1 < 0
+  · rw [if_pos hneg]
+    simp only [tdiv_eq]
+    have hnn : ¬ (0 ≤ y - 1) := by omega
+    have h0 : 0 ≤ -(y - 1) := by omega
+    rw [if_pos h0]
+    generalize hE : 1 + -(y - 1) / 400 = e
+    have he1 : 1 ≤ e := by omega
+    have he2 : e ≤ 700 := by omega
+    rw [ckI32_ok (by omega) (by omega), Res.bind_ok, ckI32_ok (by omega) (by omega), Res.bind_ok,
+      ckI32_ok (by omega) (by omega), Res.bind_ok, ckI32_ok (by omega) (by omega), Res.bind_ok,
+      ckI32_ok (by omega) (by omega), Res.bind_ok]
+    simp only [Res.pure_eq, Res.bind_ok]
+    have hyy : 0 ≤ y - 1 + e * 400 := by omega
+    rw [if_pos hyy]
+    rw [ckI32_ok (by omega) (by omega), Res.bind_ok]
+    rw [dby_neg_helper]
+    rw [ckI32_ok (by omega) (by omega), Res.bind_ok, ckI32_ok (by omega) (by omega), Res.bind_ok,
+      ckI32_ok (by omega) (by omega), Res.bind_ok, ckI32_ok (by omega) (by omega)]
+    congr 1
+    rw [div100_4]
+    omega
+  · rw [if_neg hneg]
+    simp only [Res.pure_eq, Res.bind_ok, tdiv_eq]
+    have hyy : 0 ≤ y - 1 := by omega
+    rw [if_pos hyy]
+    rw [ckI32_ok (by omega) (by omega), Res.bind_ok]
+    rw [dby_neg_helper]
+    rw [ckI32_ok (by omega) (by omega), Res.bind_ok, ckI32_ok (by omega) (by omega), Res.bind_ok,
+      ckI32_ok (by omega) (by omega), Res.bind_ok, ckI32_ok (by omega) (by omega)]
+    congr 1
+    rw [div100_4]
+    omega
 
 end Chrono.Proofs
